@@ -37,7 +37,7 @@ m = dict(
     engines=[dict(name='mc-core', path='mc/core.py', serves_properties=[c['property_id'] for c in checks],
                   kind_free_text='exhaustive sub-space driver: enumerates every case of each stated finite space, executes the rebuilt binaries in a process pool, compares with Python reference models, deduplicates model states, writes replays/evidence')],
     checks=checks,
-    notes='All checks rebuild /repo incrementally (cmake+ninja) into /verif/build before exploring. Known findings: known_findings.jsonl.',
+    notes='All checks rebuild /repo incrementally (cmake+ninja) into /verif/build before exploring. Known findings: known_findings.txt.',
     not_applicable=na,
 )
 json.dump(m, open(os.path.join(ROOT, 'MANIFEST.json'), 'w'), indent=1)
